@@ -350,6 +350,8 @@ def run(ctx):
     ctx.rule("R01.k", "class creation re-validates an inherited-constraints default whenever the type changed or a slot was overridden, for every default other than None "
                       "(the guard of the _validate call in __param_inheritance, evaluated on None / falsy / truthy defaults x trigger flags)", floor=1)
     ctx.rule("R01.l", "selector model: the validators of Selector and ListSelector interpreted abstractly (objects from a list / from a dict / a dict-declared selector after a list-style replacement x allow_None x check_on_set x None / object in force / object names still mentions / unknown object, 104 cases): accepted iff None with allow_None or one of the objects in force (_objects); nothing appended under check_on_set, unknown values appended once without it", floor=1)
+    ctx.rule("R01.n", "the comparison helper does not move the value: _to_datetime, interpreted abstractly on a datetime / a plain date / something else, returns a datetime and anything else "
+                      "unchanged (the very object) and converts only plain dates (R01.f compares bounds through it and assumes it preserves order)", floor=1)
     ctx.rule("R01.g", "every _validate_value override below Tuple checks isinstance(val, tuple) (itself or via super) before iterating the value", floor=3)
     ctx.rule("R01.m", "setter model: Parameter.__set__ interpreted abstractly on every combination (576) of route x constant/readonly x validation outcome x identity x reference mode x watchers x batching agrees with the specification of this property (see checks/setter_model.py)", floor=1)
     ctx.not_decided += ["semantics of re.match / isinstance / `in` (trusted library operations: only that they are consulted is checked)",
@@ -368,6 +370,41 @@ def run(ctx):
     inherited_default_revalidated(ctx, "R01.k")
     from checks import selector_model
     selector_model.report(ctx, "R01.l")
+    # ---- R01.n
+    from engine.absint import Interp as _I, Obj as _O, Unsupported as _U
+    td = ctx.repo.func("param._utils._to_datetime")
+    badt = None
+    for kind in ("datetime", "date", "other"):
+        x = _O("value_" + kind, kind=kind)
+        made = []
+
+        def hook_t(fn, args, kwargs, kind=kind, x=x, made=made):
+            if fn == "isinstance" and len(args) == 2 and args[0] is x:
+                spec = args[1] if isinstance(args[1], tuple) else (args[1],)
+                return any((t == "<date>" and kind in ("date", "datetime")) or (t == "<datetime>" and kind == "datetime") for t in spec)
+            if fn in ("dt.datetime", "dt.datetime.combine", "datetime.datetime", "dt.datetime.fromordinal"):
+                o = _O("datetime_built_from_the_value")
+                made.append(o)
+                return o
+            return NotImplemented
+        it_t = _I(ctx.hier, call_hook=hook_t, globals={"dt": _O("datetime_module", date="<date>", datetime="<datetime>")})
+        try:
+            outs = it_t.run_all(td, {td.params[0]: x})
+        except _U as e:
+            raise AnalysisError("absint cannot interpret _to_datetime: %s -- R01.n cannot decide" % e)
+        ctx.abstract_cases += 1
+        if len(outs) != 1 or outs[0].imprecise or outs[0].kind != "return":
+            raise AnalysisError("absint imprecise on _to_datetime(%s) -- R01.n cannot decide" % kind)
+        r = outs[0].value
+        if kind in ("datetime", "other") and r is not x:
+            badt = "a %s is replaced by %r: a datetime rebuilt from parts loses its microseconds / time zone, so a value just above a bound is compared as the bound itself and accepted" % (
+                "datetime" if kind == "datetime" else "non-date value", r)
+        if kind == "date" and (r is x or not made):
+            badt = "a plain date is returned unconverted: comparing it with datetime bounds raises TypeError"
+    if badt:
+        ctx.fail("R01.n", td, td.node, "_to_datetime: " + badt, key=td.qualname + "::moves-the-value", input="Date(bounds=(dt(2020,1,1), dt(2020,1,31))) <- dt(2020,1,31,0,0,0,5)")
+    else:
+        ctx.ok("R01.n", td, td.node, "3/3: datetimes and non-dates come back unchanged, plain dates are converted")
 
     # model-level rule, run last (see DESIGN §10)
     from checks import setter_model
